@@ -21,6 +21,8 @@ pub fn run(rep: &mut Report) {
     // a second family: many loggers, deep names
     let n2 = if rep.tier == "thorough" { 10_000 } else { 400 };
     run_cases(rep, "deep", n2, |rep, rng, _| one_config(rep, rng, 24, 7));
+    // more appenders than fit a 16-bit index (one configuration)
+    run_cases(rep, "very-wide", 1, very_wide);
     // records logged from inside an appender
     run_cases(rep, "nested", if rep.tier == "thorough" { 4000 } else { 400 }, nested);
     // a third family: a few loggers hundreds to thousands of components deep
@@ -124,6 +126,24 @@ fn nested(rep: &mut Report, rng: &mut Rng, _idx: u64) {
             }
         }
     }
+}
+
+/// One configuration with more appenders than a 16-bit index can count.
+fn very_wide(rep: &mut Report, rng: &mut Rng, _idx: u64) {
+    let n = 65_538usize;
+    let appenders: Vec<String> = (0..n).map(|i| format!("W{}", i)).collect();
+    let pick = |k: usize| format!("W{}", k);
+    let spec = ConfSpec {
+        appenders,
+        root_level: log::LevelFilter::Info,
+        root_appenders: vec![pick(1), pick(65_537)],
+        loggers: vec![
+            LoggerSpec { name: "wide".into(), level: log::LevelFilter::Trace, additive: false, appenders: vec![pick(65_536), pick(0)] },
+            LoggerSpec { name: "wide::inner".into(), level: log::LevelFilter::Debug, additive: true, appenders: vec![pick(65_535), pick(40_000)] },
+        ],
+    };
+    rep.count("configs_with_more_than_65536_appenders", 1);
+    check_spec(rep, rng, spec, vec!["wide".into(), "wide::inner".into(), "wide::inner::x".into(), "other".into(), "wid".into()]);
 }
 
 /// Loggers hundreds of components deep (around 255/256 and 65535/65536 bytes of name), declared child first.
